@@ -77,3 +77,26 @@ Print Assumptions src_tie_days_per_year.
 Theorem src_tie_days_per_month : forall y m r, days_per_month64 y m = OK r -> r = tr_days_per_month y m.
 Proof. exact tr_days_per_month_eq. Qed.
 Print Assumptions src_tie_days_per_month.
+
+From CCTZ Require Import Source64 Source64Proofs Source64Cor.
+
+(* SOURCE-DERIVED checked functions (Source64.v, regenerated from clang's AST of the current
+   civil_time_detail.h on every run): the normalising constructor as the header composes it meets the calendar spec;
+   tie lemmas: hand-written model OK r => source-derived function OK r *)
+Theorem src64_construct_meets_spec : forall tag y m d hh mm ss, (tag <= 5)%nat ->
+  int64 y -> int64 m -> int64 d -> int64 hh -> int64 mm -> int64 ss ->
+  int64 (carry_year y m) -> int64 (fy (norm_spec y m d hh mm ss)) ->
+  s64_construct tag y m d hh mm ss = OK (align_spec tag (norm_spec y m d hh mm ss)).
+Proof. exact src64_construct_meets_spec_lemma. Qed.
+Print Assumptions src64_construct_meets_spec.
+
+Theorem src64_tie_n_sec y m d hh mm ss r :
+  n_sec64 y m d hh mm ss = OK r -> s64_n_sec s64_fuel y m d hh mm ss = OK r.
+Proof. exact (s64_n_sec_tie y m d hh mm ss r). Qed.
+Print Assumptions src64_tie_n_sec.
+
+Theorem src64_tie_n_day y m d cd hh mm ss r :
+  n_day64 y m d cd hh mm ss = OK r -> s64_n_day s64_fuel y m d cd hh mm ss = OK r.
+Proof. exact (s64_n_day_tie y m d cd hh mm ss r). Qed.
+Print Assumptions src64_tie_n_day.
+
